@@ -7,7 +7,7 @@ def OpErL (cx : Cx) (lo hi : Nat) (es : List Node) (asg args : List Node)
     (R : (List Node × List Node × List Node) × St) (s : St) : Prop :=
   ∃ new more, R.1.2.1 = asg ++ new ∧ R.1.2.2 = args ++ more ∧ AllTA new ∧ InertL more ∧ s.counter ≤ R.2.counter ∧
     (∀ σ, cx.ext σ → ∃ Δ, eraseAsg σ new = Δ ++ σ ∧ WinU lo hi s.counter R.2.counter Δ) ∧
-    (∀ σ Δ2, cx.ext σ → Avoid s.counter R.2.counter Δ2 → Avoid cx.a0 cx.a1 Δ2 →
+    (∀ σ Δ2, cx.ext σ → Avoid s.counter R.2.counter Δ2 → AvoidP cx.bad Δ2 →
       ∃ Xs Δ3, eraseL (Δ2 ++ eraseAsg σ new) R.1.1 = (Xs, Δ3 ++ (Δ2 ++ eraseAsg σ new)) ∧ SimL Xs es ∧ Win lo hi Δ3)
 
 theorem opErL_nil (cx : Cx) (lo hi : Nat) (asg args : List Node) (s : St) :
@@ -46,7 +46,7 @@ theorem opErL_cons {cx : Cx} {lo hi : Nat} {e x : Node} {es xs asg args asg1 arg
       rcases List.mem_append.mp hp with hp | hp
       · have := hav p hp; omega
       · have := w2 p hp; have := hw.h3; omega
-    have hC : Avoid cx.a0 cx.a1 (Δ2 ++ Δ2') := hac.append (w2.avoidCx hw1)
+    have hC : AvoidP cx.bad (Δ2 ++ Δ2') := hac.append (w2.avoidCx hw1)
     obtain ⟨X, Δ3, eX, sX, wX⟩ := B1 σ (Δ2 ++ Δ2') hσ hA hC
     -- the tail, under what the head bound
     have hA2 : Avoid s1.counter s2.counter (Δ3 ++ Δ2) := by
@@ -54,7 +54,7 @@ theorem opErL_cons {cx : Cx} {lo hi : Nat} {e x : Node} {es xs asg args asg1 arg
       rcases List.mem_append.mp hp with hp | hp
       · have := wX p hp; have := hw.h3; omega
       · have := hav p hp; omega
-    have hC2 : Avoid cx.a0 cx.a1 (Δ3 ++ Δ2) := (wX.avoid_hi hw.h1).append hac
+    have hC2 : AvoidP cx.bad (Δ3 ++ Δ2) := (wX.avoidP hw.h1).append hac
     obtain ⟨Xs, Δ3', eXs, sXs, wXs⟩ := B2 _ (Δ3 ++ Δ2) hσ1 hA2 hC2
     have envEq : Δ2 ++ eraseAsg σ (new1 ++ new2) = (Δ2 ++ Δ2') ++ eraseAsg σ new1 := by
       rw [eraseAsg_append, e2, List.append_assoc]
